@@ -709,5 +709,6 @@ Definition fun_of (id : nat) (v : val) : val :=
   | 3%nat => VInt (wrap64 (vkey v * vkey v))
   | 4%nat => VTup [v]
   | 5%nat => flag_obj                 (* the same shared object for every item *)
-  | _ => VInt (vkey v)                (* a fresh copy: same value, another object *)
+  | 6%nat => VInt (vkey v)            (* a fresh copy: same value, another object *)
+  | _ => v                            (* 7: the probe, an identity that the driver wraps to record what it is applied to *)
   end.
